@@ -123,6 +123,8 @@ struct Shared {
     /// API-call boundaries (DashMap-internal shard lock events are passed through unless the
     /// acquisition would block), which makes long uninterrupted runs of one thread likely
     coarse: bool,
+    /// model the writer preference of parking_lot's RwLock (see `writer_queued`)
+    writer_pref: bool,
     /// lock-order edges observed: (held-site, wanted-site)
     edges: BTreeSet<(String, String)>,
     aborted: bool,
@@ -142,16 +144,37 @@ fn conflicts(holders: &[(usize, bool, &'static Location<'static>)], me: usize, e
     holders.iter().any(|(w, hx, _)| if *w == me { excl || *hx } else { excl || *hx })
 }
 
+/// parking_lot's RwLock is writer-preferring: once a writer is queued (it has attempted the lock
+/// and is blocked by the current readers), new shared acquisitions wait behind it - including a
+/// *recursive* `read()` by a thread that already holds the lock shared, which therefore
+/// deadlocks.  Modelled for parking_lot locks only (not for DashMap's shard locks).
+fn writer_queued(sh: &Shared, w: usize, p: &Pending) -> bool {
+    if p.excl || internal_site(p.site) {
+        return false;
+    }
+    (0..sh.n).any(|u| {
+        u != w
+            && sh.started[u]
+            && !sh.finished[u]
+            && sh.pending[u].map_or(false, |q| q.lock == p.lock && q.excl && sh.holders.get(&q.lock).map_or(false, |hs| conflicts(hs, u, true)))
+    })
+}
+
 fn enabled(sh: &Shared, w: usize) -> bool {
     if sh.finished[w] || !sh.started[w] {
         return false;
     }
     match sh.pending[w] {
         None => true,
-        Some(p) => match sh.holders.get(&p.lock) {
-            None => true,
-            Some(hs) => !conflicts(hs, w, p.excl),
-        },
+        Some(p) => {
+            if sh.writer_pref && writer_queued(sh, w, &p) {
+                return false;
+            }
+            match sh.holders.get(&p.lock) {
+                None => true,
+                Some(hs) => !conflicts(hs, w, p.excl),
+            }
+        }
     }
 }
 
@@ -167,6 +190,14 @@ fn build_deadlock(sh: &Shared) -> DeadlockReport {
                 for (hw, hx, _) in hs {
                     if p.excl || *hx {
                         blockers.entry(w).or_default().push((*hw, p.lock));
+                    }
+                }
+            }
+            // a shared acquisition also waits for a queued writer (writer preference)
+            if !p.excl && !internal_site(p.site) {
+                for u in 0..sh.n {
+                    if u != w && !sh.finished[u] && sh.pending[u].map_or(false, |q| q.lock == p.lock && q.excl) {
+                        blockers.entry(w).or_default().push((u, p.lock));
                     }
                 }
             }
@@ -415,6 +446,7 @@ pub fn run_serial(seed: u64, switch_pm: u64, coarse: bool, progs: Vec<Box<dyn Fn
             switches: 0,
             deadlock: None,
             coarse,
+            writer_pref: true,
             edges: BTreeSet::new(),
             aborted: false,
         });
@@ -572,6 +604,7 @@ pub fn run_jitter(seed: u64, level: u64, stall_ms: u64, progs: Vec<Box<dyn FnOnc
             switches: 0,
             deadlock: None,
             coarse: false,
+            writer_pref: true,
             edges: BTreeSet::new(),
             aborted: false,
         });
@@ -627,6 +660,13 @@ pub fn run_jitter(seed: u64, level: u64, stall_ms: u64, progs: Vec<Box<dyn FnOnc
                         for (hw, hx, _) in hs {
                             if *hw != w && (p.excl || *hx) {
                                 waits.entry(w).or_default().push(*hw);
+                            }
+                        }
+                    }
+                    if !p.excl && !internal_site(p.site) {
+                        for u in 0..n {
+                            if u != w && !sh.finished[u] && sh.pending[u].map_or(false, |q| q.lock == p.lock && q.excl) {
+                                waits.entry(w).or_default().push(u);
                             }
                         }
                     }
